@@ -185,7 +185,7 @@ func DataURI(dataURI []byte) ([]byte, []byte, error) {
 						}
 						data = decoded[:n]
 					} else {
-						data = DecodeURL(data)
+						data = decodeURL(data, false) // a plus sign in a data URI is a plus sign
 					}
 					return mediatype, data, nil
 				}
@@ -521,6 +521,11 @@ func EncodeURL(b []byte, table [256]bool) []byte {
 
 // DecodeURL decodes an URL encoded using the URL encoding scheme
 func DecodeURL(b []byte) []byte {
+	return decodeURL(b, true)
+}
+
+// decodeURL decodes percent-escapes and, for form encoding only, a plus sign as a space.
+func decodeURL(b []byte, plusIsSpace bool) []byte {
 	for i := 0; i < len(b); i++ {
 		if b[i] == '%' && i+2 < len(b) {
 			j := i + 1
@@ -538,7 +543,7 @@ func DecodeURL(b []byte) []byte {
 				b[i] = byte(c)
 				b = append(b[:i+1], b[i+3:]...)
 			}
-		} else if b[i] == '+' {
+		} else if plusIsSpace && b[i] == '+' {
 			b[i] = ' '
 		}
 	}
